@@ -610,6 +610,7 @@ def c10(tier, seed):
               "depth 0 is replayed on a fresh target with the same pixels and re-established transform/clips and must give identical pixels; "
               "layer groups are replayed as a whole; the rasteriser-idle hook must hold after every call; non-trivial = the surface changed")
     v.trusted = ["harness interpreter, state re-establishment (harness/src/canvas.rs)", "cfg(raqote_verif) idle hook"]
+    cursor_design("C10", v, 4 if th else 3)
     scs = canvas_gen("C10", v, "history", 1, 6 if th else 3, draws=3, salt=seed)
     scs += canvas_gen("C10", v, "history", 4, 4, draws=4, simulate=6000 if th else 350, depth=10, seed=seed, salt=seed)
     scs += drive("C10", "canvas-history", seed + 400, 2500 if th else 300)
@@ -652,6 +653,18 @@ def known_scenarios(pid, fam=None):
             j = json.load(open(os.path.join(core.VERIF, k["scenario"])))
             sc = j["scenario"]
             if fam is None or sc.get("fam") == fam:
+                out.append(sc)
+    return out
+
+
+def fixed_scenarios(pid, fam):
+    """Scenarios of repaired findings (a fixed entry suppresses nothing: the scenario is simply checked again on every run)."""
+    out, seen = [], set()
+    for k in core.load_known().get("fixed", []):
+        if k["property"] == pid and k.get("scenario") and k["scenario"] not in seen and k["scenario"].endswith(".json"):
+            seen.add(k["scenario"])
+            sc = json.load(open(os.path.join(core.VERIF, k["scenario"]))).get("scenario")
+            if isinstance(sc, dict) and sc.get("fam") == fam:
                 out.append(sc)
     return out
 
@@ -712,6 +725,7 @@ def c17(tier, seed):
               "half-integer point of its bounding box grown by one unit, so points level with vertices, collinear beyond edge ends and on "
               "horizontal edges all occur; non-trivial = some but not all query points contained")
     v.trusted = ["harness query grid and path construction (harness/src/pathfam.rs)"]
+    cursor_design("C17", v, 5 if th else 4)
     g, scs = gen_scenarios("C17", "Gen_Fill", env={"FAM": "contains", "N": 3, "NV": 3, "NL": 1, "NVAR": 3 if th else 2}, timeout=1200)
     v.add_tlc(g)
     if th:
@@ -1130,10 +1144,20 @@ def c08(tier, seed):
     return v.finish()
 
 
+def cursor_design(pid, v, n):
+    """Design level: the code-shaped cursor machines of fill (apply_path), flatten and contains_point (CursorImpl.tla) refine
+    the PathSem cursor on every op sequence of up to n ops over {M, L, Q, C, Z} x 3 points (MC_Cursor)."""
+    r = run_tlc(pid, "MC_Cursor", env={"N": n, "PINNED": 0}, workers=8, timeout=3000)
+    v.add_tlc(r)
+    v.extra["cursor_refinement"] = ("MC_Cursor: fill / flatten / contains_point cursor machines refine PathSem on every op sequence of "
+                                    "up to %d ops (%d states; FillCursor, FillEdges, FillLoopsAgree, FlatCursor, FlatFrom, FlatFillAgree, HitAgree)" % (n, r.distinct))
+
+
 @prop("C16")
 def c16(tier, seed):
     v = Verdicts("C16", tier, seed)
     th = tier == "thorough"
+    cursor_design("C16", v, 5 if th else 4)
     v.rule = ("Gen_Curve(FAM=flatten): paths of up to 5 ops over {M, L, Q, C, Z} with control points from an 8-point half-pixel menu, "
               "including curves as first op, directly after MoveTo and directly after Close, with tolerances 1, 1/4, 1/10, 1/16, 1/64; every "
               "two-op path (subsampled) and simulated longer ones; each flattened path is matched op by op against Flatten.tla; "
@@ -1148,6 +1172,7 @@ def c16(tier, seed):
     scs += s2
     scs += drive("C16", "flatten", seed, 5000 if th else 800)
     scs += known_scenarios("C16", "flatten")
+    scs += fixed_scenarios("C16", "flatten")
     simple_validate("C16", v, scs, "all", "Trace_Flatten", sigfn=lambda sc, tup: {"fam": "flatten", "what": tup[3]}, timeout=3000)
     v.samples = [scs[0], scs[-1]]
     return v.finish()
